@@ -611,6 +611,32 @@ def spec_key(sfs):
     return json.dumps(sfs, sort_keys=True)
 
 
+def structured_blocks(rng, cap):
+    """Small structured blocks (a sample of `cap`, always containing the first of each family):
+    * a constant expression whose folded value is used once, twice, or as both operands (every binary operation);
+    * `U SWAP1 C` shapes: a computed operand and a free stack element under a commutative / non-commutative operation;
+    * every block of length <= 2 and a sample of length 3 over a small vocabulary."""
+    from harness import blockgen
+    fam = []
+    for op in blockgen.OP2:
+        for a, b in (("1", "5"), ("3", "9"), ("2", "3")):
+            base = "PUSH %s PUSH %s %s" % (a, b, op)
+            fam += [base, base + " DUP1", base + " DUP1 MUL", base + " DUP1 DUP3 ADD SWAP2 MUL", base + " DUP1 SWAP2 SUB",
+                    base + " " + base + " ADD"]
+    for u in ("NOT", "ISZERO", "PUSH 1 ADD", "DUP1 MUL"):
+        for c in ("ADD", "MUL", "AND", "OR", "XOR", "EQ", "SUB", "LT", "DIV"):
+            fam += ["%s SWAP1 %s" % (u, c), "%s %s" % (u, c), "ADD %s SWAP1 %s" % (u, c), "%s SWAP1 %s %s DUP1" % (u, c, u),
+                    "LT SWAP1 ADD %s PUSH ff" % u, "%s SWAP1 %s SWAP1 %s" % (u, c, c)]
+    voc = ["NOT", "ISZERO", "ADD", "SUB", "AND", "SWAP1", "SWAP2", "DUP1", "DUP2", "PUSH 1", "POP", "MLOAD", "MSTORE"]
+    small = [a for a in voc] + ["%s %s" % (a, b) for a in voc for b in voc]
+    tri = ["%s %s %s" % (a, b, c) for a in voc for b in voc for c in voc]
+    rng.shuffle(tri)
+    head = fam[::6] + small[:40]
+    rest = [x for x in fam + small + tri[:600] if x not in set(head)]
+    rng.shuffle(rest)
+    return (head + rest)[:cap]
+
+
 def collect_frontend(run, rng, nblocks, option_sets, contracts, timeout=6, pid=PID, contract_option_sets=None):
     """Runs the front end + greedy.  Returns list of case dicts:
     {'origin', 'opts', 'block', 'name', 'sfs', 'greedy', 'sub_block_list', 'sub_index'} and stats."""
@@ -621,7 +647,7 @@ def collect_frontend(run, rng, nblocks, option_sets, contracts, timeout=6, pid=P
         if b not in seen:
             seen.add(b)
             blocks.append(b)
-    corpus = load_corpus_blocks(pid)
+    corpus = load_corpus_blocks(pid) + structured_blocks(rng, 260 if nblocks <= 150 else 1200)
     cases, stats = [], {"frontend_status": {}, "blocks": 0}
     for opts in option_sets:
         items = [("text", b) for b in corpus + blocks]
